@@ -121,8 +121,11 @@ Section WithOrder.
    supplied by the harness *)
 Variable tyorder : list nat.
 
+(* the sorted keys; keys the supplied order does not mention (none, when the harness did its job) come last, so
+   every key is a root whatever the order says *)
 Definition roots_of (pm : pmap entry) : list nat :=
-  filter (fun t => existsb (Nat.eqb t) (keys pm)) tyorder.
+  filter (fun t => existsb (Nat.eqb t) (keys pm)) tyorder ++
+  filter (fun t => negb (existsb (Nat.eqb t) tyorder)) (keys pm).
 
 Definition verify (pm : pmap entry) : list serr :=
   match mrootsL (succ_of pm) (acyc_fuel pm) (roots_of pm) [] [] with
